@@ -28,9 +28,9 @@ from ref import h5l  # noqa: E402
 PROP = "C02"
 ENGINE = "tb"
 USES_TRANSLATOR = True
-LEAN_TARGETS = ["H5V.Props.C02"]
+LEAN_TARGETS = ["H5V.Props.C02", "H5V.Props.C02Algo"]
 LEANCHECKER = True
-AUDIT_IMPORTS = ["H5V.Props.C02"]
+AUDIT_IMPORTS = ["H5V.Props.C02", "H5V.Props.C02Algo"]
 _TABLE_THEOREMS = [
     "C02_table_special", "C02_table_default_scope", "C02_table_list_item_scope", "C02_table_button_scope",
     "C02_table_table_scope", "C02_table_table_context", "C02_table_table_body_context", "C02_table_table_row_context",
@@ -47,7 +47,18 @@ SPEC_THEOREM_NAMES = [
     "C02_spec_quirks_mode", "C02_spec_in_scope", "C02_spec_implied_end_tags", "C02_spec_reset_insertion_mode",
     "C02_spec_dispatcher", "C02_spec_adjust_attributes", "C02_spec_svg_tag_name_and_breakout",
     "C02_spec_adoption_outer_loop"]
-THEOREMS = ["H5V.Props.C02." + t for t in _TABLE_THEOREMS + SPEC_THEOREM_NAMES]
+# the remaining sub-algorithms against literal transcriptions of the standard (Spec/TreeAlgo2.lean, Props/C02Algo.lean):
+# total-correctness triples incl. the exact list of TreeSink calls (the DOM edit log)
+ALGO_THEOREM_NAMES = [
+    "C02_abs_of_names", "C02_spec_appropriate_place", "C02_spec_appropriate_place_defined", "C02_spec_foster_resolution",
+    "C02_spec_insert_element", "C02_spec_insert_foreign_element", "C02_spec_insert_character", "C02_spec_insert_comment",
+    "C02_spec_insert_comment_in", "C02_spec_reconstruct", "C02_spec_reconstruct_rewind", "C02_spec_reconstruct_suffix",
+    "C02_spec_noah_push", "C02_spec_noah_list", "C02_spec_clear_to_last_marker", "C02_spec_adoption_inner_loop",
+    "C02_spec_adoption_round", "C02_spec_adoption_agency", "C02_spec_adoption_bookmark", "C02_spec_any_other_end_tag",
+    "C02_spec_implied_end_tags_tot", "C02_spec_clear_stack_back", "C02_spec_pop_until", "C02_spec_close_p",
+    "C02_spec_close_cell", "C02_spec_in_scope_tot", "C02_spec_stop_parsing_pop_all",
+    "Ex.C02_witness_foster_previous_template_spec", "Ex.C02_witness_foster_previous_template"]
+THEOREMS = ["H5V.Props.C02." + t for t in _TABLE_THEOREMS + SPEC_THEOREM_NAMES + ALGO_THEOREM_NAMES]
 
 TRUSTED = [
     "Lean 4 kernel; axioms ⊆ {propext, Classical.choice, Quot.sound} (audited per run)",
